@@ -17,8 +17,10 @@ import json
 import os
 
 import vlib
+from props import c17_listener
 
 PID = "C17"
+RESOLVER_DEVIATIONS = ["DefaultCertLegacySni"]     # switches of CertResolver.tla; the others belong to CertListener.tla
 
 CFG = """SPECIFICATION Spec
 CONSTANTS
@@ -61,7 +63,7 @@ def run(tier, replay=None):
     rep = vlib.Report(PID, tier)
     wd = vlib.workdir(PID)
     bins = vlib.cargo_build(["replay_certs"])
-    devs = vlib.open_deviations(PID)
+    devs = [d for d in vlib.open_deviations(PID) if d in RESOLVER_DEVIATIONS]
     thorough = tier == "thorough"
     workers = 16 if thorough else 6
     threads = "16" if thorough else "8"
@@ -95,6 +97,10 @@ def run(tier, replay=None):
             raise vlib.ToolError("generator run reported a violation: %s" % g["violated"])
         n_states = g["n_replays"] - 1
 
+    # --replay of a file of the listener legs
+    if c17_listener.handles(replay):
+        c17_listener.replay(rep, wd, bins, beh, replay)
+        rep.finish()
     # --replay <violation file>: re-run that single history verbosely
     if replay and replay.endswith(".json"):
         with open(replay) as f:
@@ -105,6 +111,9 @@ def run(tier, replay=None):
         rep.cov["traces_validated_against_impl"] = s["histories"]
         rep.finish()
 
+    # 4L. the listener legs (CertListener.tla: certificate commands interleaved with listener operations on real
+    #     workers, real handshakes after every step) run in the background next to the resolver legs
+    listener_legs = c17_listener.start(tier, wd, bins, beh)
     # 4a. walk: exhaustive histories + random long histories, three concretisations
     seed = vlib.seed()
     total_hist = 0
@@ -207,6 +216,9 @@ def run(tier, replay=None):
                 raise vlib.ToolError("trace canary: corrupted event %d not rejected there (consumed %s)" % (target + 1, cv["consumed"]))
             vlib.log("trace canary: corrupted observation rejected at event %d" % (target + 1))
     rep.extra["trace_events_validated"] = n_events
+    lt, ld = c17_listener.finish(listener_legs, rep)
+    total_hist += lt
+    distinct += ld
     # vacuity guards of the wire leg: requests were routed and requests were refused with 421
     if not rep.violations and (wk.get("routed_to_backend", 0) == 0 or wk.get("answered_421", 0) == 0 or wk.get("tcp_tls_handshakes", 0) == 0):
         raise vlib.ToolError("worker leg is vacuous: %s" % json.dumps(wk))
